@@ -875,6 +875,13 @@ WITNESSES = [
     {"name": "dtlr-root-not-cloned", "file": "mlinsights/mlmodel/decision_tree_logreg.py", "rule": "C03.f", "old": "        estimator = clone(self.estimator)\n        self.tree_ = _DecisionTreeLogisticRegressionNode(estimator, 0.5)\n", "new": "        self.tree_ = _DecisionTreeLogisticRegressionNode(self.estimator, 0.5)\n"},
     {"name": "kmeansl1-warm-start-centers", "file": _KL, "rule": "C03.d", "old": "        init = self.init\n        if hasattr(init, \"__array__\"):", "new": "        init = self.cluster_centers_ if hasattr(self, \"cluster_centers_\") else self.init\n        if hasattr(init, \"__array__\"):"},
 ]
+# witnesses of the rules added after the ninth round of independent changes
+WITNESSES += [
+    {"name": "cache-keyed-by-the-pipeline-input", "file": "mlinsights/mlbatch/pipeline_cache.py", "rule": "C03.k", "old": 'params["X"] = Xt', "new": 'params["X"] = X'},
+    {"name": "categories-in-set-order", "file": "mlinsights/mlmodel/categories_to_integers.py", "rule": "C03.l", "old": "enumerate(list(sorted(distinct)))", "new": "enumerate(list(distinct))"},
+]
+
+
 TWINS = [
     {"name": "permutation-guard-flipped", "file": _TI, "old": "        if self.random_state is None:\n            lin = numpy.random.permutation(lin)\n        else:\n            rs = numpy.random.RandomState(self.random_state)\n            lin = rs.permutation(lin)\n", "new": "        if self.random_state is not None:\n            rs = numpy.random.RandomState(self.random_state)\n            lin = rs.permutation(lin)\n        else:\n            lin = numpy.random.permutation(lin)\n"},
     {"name": "permutation-reset-with-del", "file": _TI, "old": "        self.knn_ = None\n        self.knn_perm_ = None\n        return self\n", "new": "        self.knn_, self.knn_perm_ = None, None\n        return self\n"},
